@@ -25,7 +25,7 @@ class MetadataExprParser(object):
         :rtype: (int, str)
         """
         metadata_expr = metadata_expr.strip()
-        if metadata_expr[0] != METADATA_QUERY_INDICATOR_CHAR:
+        if not metadata_expr.startswith(METADATA_QUERY_INDICATOR_CHAR):
             raise MetadataExprParsingError('Metadata expression must start with "%"')
 
         if '.' in metadata_expr:
